@@ -1,4 +1,5 @@
 import EvyV.Props.C07
+import EvyV.Props.C01Pratt
 /-
 C06 (the part that is logic): the formatter's layout pass adds and removes nothing but blank lines —
 for every sequence of items, at top level and inside multi-line literals. (That each item is printed
@@ -22,5 +23,33 @@ theorem no_blank_invented_at_start (l : List K) : (fmtK l).head? = l.head? := C0
 
 example : (fmtK [.comment, .stmt, .func, .comment, .blank, .blank, .func]).filter (· ≠ .blank) =
     [.comment, .stmt, .func, .comment, .func] := by decide
+
+/-! ### expressions: the printer writes the tokens of the tree, and they bind the same way again
+
+format.go prints a unary expression as operator + operand, a binary expression as left, operator,
+right, an index expression as left `[` index `]`, a group as `(` expression `)`: the token kinds of
+the printed text are `Pratt.toks` of the tree. -/
+
+open EvyV.Pratt in
+/-- no token of an accepted expression is dropped, added or rewritten by printing its tree: for every
+token sequence, the tokens of the tree the parser built, followed by what it left, are the input -/
+theorem expr_format_keeps_tokens (ts : List Tok) (e : E) (rest : List Tok) (h : parse ts = some (e, rest)) :
+    toks e ++ rest = ts := (parse_sound ts e rest h).2.1.symm
+
+open EvyV.Pratt in
+/-- the printed form of ANY precedence-respecting tree is read back as that tree: the printer never has
+to add parentheses, and its output never binds differently (in particular for every tree the parser
+returns, which `parse_sound` shows to be precedence-respecting) -/
+theorem formatted_expr_reparses_to_same_tree (ts : List Tok) (e : E) (rest : List Tok) (h : parse ts = some (e, rest)) :
+    parse (toks e ++ rest) = some (e, rest) := by
+  obtain ⟨w, _, h0⟩ := parse_sound ts e rest h
+  exact parse_toks e rest w h0
+
+open EvyV.Pratt in
+/-- a printer that dropped the parentheses of a group would change the reading: the group is needed -/
+example : parse (toks (.bin .star (.group (.bin .plus (.atom 0) (.atom 1))) (.atom 2))) =
+      some (.bin .star (.group (.bin .plus (.atom 0) (.atom 1))) (.atom 2), []) ∧
+    parse (toks (.bin .star (.bin .plus (.atom 0) (.atom 1)) (.atom 2))) ≠
+      some (.bin .star (.bin .plus (.atom 0) (.atom 1)) (.atom 2), []) := by decide
 
 end EvyV.C06
